@@ -122,7 +122,7 @@ Proof.
     + constructor; [apply norm_good; assumption|constructor].
   - destruct ((l <=? 128) && (b <? 2 ^ 32)) eqn:W; [|discriminate].
     apply andb_true_iff in W. destruct W as [W1 W2]. apply N.leb_le in W1. apply N.ltb_lt in W2.
-    destruct (96 <=? l) eqn:L; intros [= <-].
+    destruct (96 <=? l) eqn:L; intros HH; apply (f_equal (fun o => match o with Some v => v | None => ps end)) in HH; cbv beta iota in HH; subst ps.
     + apply N.leb_le in L.
       assert (WF : wf_prefix {| pfam := F4; pbase := b; plen := l - 96 |}) by (split; cbn; [lia|assumption]).
       split; [|split].
@@ -199,4 +199,617 @@ Proof.
   - apply Forall_forall. intros p Hp. apply in_concat_iff in Hp. destruct Hp as [cs [Hcs Hp]].
     destruct (Forall2_in_r _ _ _ _ H Hcs) as [a [Ha Pa]].
     destruct (parse_addr_exact a cs Pa) as (_ & _ & G). rewrite Forall_forall in G. auto.
+Qed.
+
+(* ------------------------------------------------------------------ list helpers *)
+Lemma FOP_snoc {A} (R : A -> A -> Prop) l x :
+  ForallOrdPairs R (l ++ [x]) <-> ForallOrdPairs R l /\ Forall (fun y => R y x) l.
+Proof.
+  induction l as [|a r IH]; cbn.
+  - split; [intros _; split; constructor|intros _; constructor; constructor].
+  - split.
+    + intros H. inversion H as [|? ? Fa Hr]; subst. apply IH in Hr. destruct Hr as [Hr Fx].
+      apply Forall_app in Fa. destruct Fa as [Fa Fax]. inversion Fax; subst.
+      split; constructor; auto.
+    + intros [H Fx]. inversion H as [|? ? Fa Hr]; subst. inversion Fx; subst.
+      constructor; [apply Forall_app; split; auto|apply IH; auto].
+Qed.
+
+Lemma FOP_impl_in {A} (R R' : A -> A -> Prop) l :
+  (forall a b, In a l -> In b l -> R a b -> R' a b) -> ForallOrdPairs R l -> ForallOrdPairs R' l.
+Proof.
+  induction l as [|x r IH]; intros H F; [constructor|].
+  inversion F as [|? ? Fx Fr]; subst. constructor.
+  - rewrite Forall_forall in *. intros y Hy. apply H; [left; reflexivity|right; assumption|auto].
+  - apply IH; [|assumption]. intros a b Ha Hb. apply H; right; assumption.
+Qed.
+
+Lemma FOP_perm {A} (R : A -> A -> Prop) l l' :
+  (forall a b, R a b -> R b a) -> Permutation l l' -> ForallOrdPairs R l -> ForallOrdPairs R l'.
+Proof.
+  intros S P. induction P as [|x l l' P IH|x y l|l l' l'' P1 IH1 P2 IH2]; intros F.
+  - constructor.
+  - inversion F as [|? ? Fx Fr]; subst. constructor; [eapply Permutation_Forall; eassumption|auto].
+  - inversion F as [|? ? Fy Fr]; subst. inversion Fr as [|? ? Fx Fl]; subst.
+    inversion Fy as [|? ? Ryx Fy']; subst.
+    constructor; [constructor; [apply S; assumption|assumption]|constructor; assumption].
+  - auto.
+Qed.
+
+Lemma find_pool_none n ps : find_pool n ps = None <-> ~ In n (map p_name ps).
+Proof.
+  unfold find_pool. induction ps as [|p r IH]; cbn; [tauto|].
+  destruct (p_name p =? n) eqn:E.
+  - apply N.eqb_eq in E. split; [discriminate|]. intros H. exfalso. apply H. left. assumption.
+  - apply N.eqb_neq in E. rewrite IH. tauto.
+Qed.
+
+(* ------------------------------------------------------------------ what attachment keeps *)
+Definition core (p : pool) := (p_name p, p_cidrs p, p_per_addr p, p_avoid p, p_auto p, p_alloc p).
+
+Lemma core_name p p' : core p = core p' -> p_name p = p_name p'.
+Proof. unfold core. congruence. Qed.
+Lemma core_cidrs p p' : core p = core p' -> p_cidrs p = p_cidrs p'.
+Proof. unfold core. congruence. Qed.
+Lemma core_per p p' : core p = core p' -> p_per_addr p = p_per_addr p'.
+Proof. unfold core. congruence. Qed.
+
+Lemma add_l2_keeps a p : core (add_l2 a p) = core p /\ p_bgp (add_l2 a p) = p_bgp p.
+Proof. unfold add_l2. destruct (existsb _ _); split; reflexivity. Qed.
+
+Lemma Forall2_refl_on {A} (R : A -> A -> Prop) l : (forall x, In x l -> R x x) -> Forall2 R l l.
+Proof. induction l; intros H; constructor; [apply H; left; reflexivity|apply IHl; intros; apply H; right; assumption]. Qed.
+
+Lemma Forall2_map_r {A} (R : A -> A -> Prop) (f : A -> A) l : (forall x, In x l -> R x (f x)) -> Forall2 R l (map f l).
+Proof. induction l; intros H; cbn; constructor; [apply H; left; reflexivity|apply IHl; intros; apply H; right; assumption]. Qed.
+
+Lemma Forall2_trans' {A} (R1 R2 R3 : A -> A -> Prop) l1 l2 l3 :
+  (forall a b c, In a l1 -> R1 a b -> R2 b c -> R3 a c) -> Forall2 R1 l1 l2 -> Forall2 R2 l2 l3 -> Forall2 R3 l1 l3.
+Proof.
+  intros H F1. revert l3. induction F1 as [|a b l1 l2 Hab F1 IH]; intros l3 F2; inversion F2; subst; constructor.
+  - eapply H; [left; reflexivity|eassumption|eassumption].
+  - apply IH; [|assumption]. intros; eapply H; [right|..]; eassumption.
+Qed.
+
+Lemma Forall2_impl_in {A} (R R' : A -> A -> Prop) l l' :
+  (forall a b, In a l -> R a b -> R' a b) -> Forall2 R l l' -> Forall2 R' l l'.
+Proof.
+  intros H F. induction F; constructor; [apply H; [left; reflexivity|assumption]|].
+  apply IHF. intros; apply H; [right|]; assumption.
+Qed.
+
+(* L2 attachment keeps everything but p_l2 *)
+Definition keep_l2 (p p' : pool) : Prop := core p = core p' /\ p_bgp p = p_bgp p'.
+
+Lemma upd_l2_keeps n a ps : Forall2 keep_l2 ps (upd_pool n (add_l2 a) ps).
+Proof.
+  unfold upd_pool. apply Forall2_map_r. intros p _. destruct (p_name p =? n).
+  - destruct (add_l2_keeps a p) as [H1 H2]. split; congruence.
+  - split; reflexivity.
+Qed.
+
+Lemma keep_l2_trans ps1 ps2 ps3 : Forall2 keep_l2 ps1 ps2 -> Forall2 keep_l2 ps2 ps3 -> Forall2 keep_l2 ps1 ps3.
+Proof. apply Forall2_trans'. intros a b c _ [H1 H2] [H3 H4]. split; congruence. Qed.
+
+Lemma set_l2_keeps crs nodes advs : forall ps ps', set_l2 crs nodes advs ps = Some ps' -> Forall2 keep_l2 ps ps'.
+Proof.
+  induction advs as [|c r IH]; intros ps ps'; cbn [set_l2].
+  - intros [= <-]. apply Forall2_refl_on. intros; split; reflexivity.
+  - destruct (parse_l2 nodes c) as [a|]; [|discriminate]. intros H. apply IH in H.
+    eapply keep_l2_trans; [|exact H]. clear H IH.
+    generalize (targets crs (l2_pools c) (l2_psels c) ps) as ts. intros ts. revert ps.
+    induction ts as [|n ts IHt]; intros ps; cbn [fold_left].
+    + apply Forall2_refl_on. intros; split; reflexivity.
+    + eapply keep_l2_trans; [apply upd_l2_keeps|apply IHt].
+Qed.
+
+(* BGP attachment: what is appended to which pool *)
+Definition grows (Q : N -> bgpadv -> Prop) (p p' : pool) : Prop :=
+  core p = core p' /\ p_l2 p = p_l2 p' /\ forall b, In b (p_bgp p') <-> In b (p_bgp p) \/ Q (p_name p) b.
+
+Lemma grows_names Q ps ps' : Forall2 (grows Q) ps ps' -> map p_name ps = map p_name ps'.
+Proof. induction 1 as [|p p' l l' [H _] F IH]; cbn; [reflexivity|]. rewrite IH, (core_name _ _ H). reflexivity. Qed.
+
+Lemma grows_refl ps : Forall2 (grows (fun _ _ => False)) ps ps.
+Proof. apply Forall2_refl_on. intros p _. repeat split; auto. tauto. Qed.
+
+Lemma grows_trans Q1 Q2 ps1 ps2 ps3 :
+  Forall2 (grows Q1) ps1 ps2 -> Forall2 (grows Q2) ps2 ps3 ->
+  Forall2 (grows (fun n b => Q1 n b \/ Q2 n b)) ps1 ps3.
+Proof.
+  apply Forall2_trans'. intros a b c _ (C1 & L1 & M1) (C2 & L2 & M2). repeat split; try congruence.
+  - intros H. apply M2 in H. rewrite <- (core_name _ _ C1) in H. rewrite M1 in H. tauto.
+  - intros H. apply M2. rewrite <- (core_name _ _ C1). rewrite M1. tauto.
+Qed.
+
+Lemma grows_weaken Q Q' ps ps' :
+  (forall n b, In n (map p_name ps) -> (Q n b <-> Q' n b)) -> Forall2 (grows Q) ps ps' -> Forall2 (grows Q') ps ps'.
+Proof.
+  intros H. apply Forall2_impl_in. intros p p' Hp (C & L & M). repeat split; auto.
+  - intros Hb. apply M in Hb. rewrite <- H by (apply in_map; assumption). assumption.
+  - intros Hb. apply M. rewrite H by (apply in_map; assumption). assumption.
+Qed.
+
+Lemma upd_bgp_grows n a ps :
+  Forall2 (grows (fun n' b => b = a /\ n' = n)) ps (upd_pool n (add_bgp a) ps).
+Proof.
+  unfold upd_pool. apply Forall2_map_r. intros p _. destruct (p_name p =? n) eqn:E.
+  - apply N.eqb_eq in E. repeat split; cbn [add_bgp p_bgp].
+    + rewrite in_app_iff. cbn. intros [H|[H|[]]]; auto.
+    + rewrite in_app_iff. cbn. intros [H|[H _]]; auto.
+  - apply N.eqb_neq in E. repeat split; auto. intros [H|[_ H]]; auto. contradiction.
+Qed.
+
+Lemma attach_bgp_grows a ts : forall ps ps', attach_bgp a ts ps = Some ps' ->
+  Forall2 (grows (fun n b => b = a /\ In n ts)) ps ps'.
+Proof.
+  induction ts as [|n r IH]; intros ps ps'; cbn [attach_bgp].
+  - intros [= <-]. eapply grows_weaken; [|apply grows_refl]. cbn. tauto.
+  - destruct (find_pool n ps) as [p0|] eqn:F.
+    + destruct (validate_adv a p0); [|discriminate]. intros H. apply IH in H.
+      eapply grows_weaken; [|eapply grows_trans; [apply upd_bgp_grows|exact H]].
+      cbn. intros n' b _. split.
+      * intros [[-> ->]|[-> H']]; auto.
+      * intros [-> [<-|H']]; auto.
+    + intros H. apply IH in H. apply find_pool_none in F.
+      eapply grows_weaken; [|exact H]. cbn. intros n' b Hn. split.
+      * intros [-> H']; auto.
+      * intros [-> [<-|H']]; [contradiction|auto].
+Qed.
+
+Lemma targets_names crs names ss ps ps' : map p_name ps = map p_name ps' ->
+  targets crs names ss ps = targets crs names ss ps'.
+Proof. intros H. unfold targets. rewrite H. reflexivity. Qed.
+
+Definition bgp_wanted (crs : list pool_cr) (nodes : list node_cr) (advs : list bgp_cr) (ps : list pool)
+           (n : N) (b : bgpadv) : Prop :=
+  exists c, In c advs /\ parse_bgp nodes c = Some b /\ In n (targets crs (bg_pools c) (bg_psels c) ps).
+
+Lemma set_bgp_grows crs nodes advs : forall ps ps', set_bgp crs nodes advs ps = Some ps' ->
+  Forall2 (grows (bgp_wanted crs nodes advs ps)) ps ps'.
+Proof.
+  induction advs as [|c r IH]; intros ps ps'; cbn [set_bgp].
+  - intros [= <-]. eapply grows_weaken; [|apply grows_refl]. intros n b _. split; [tauto|].
+    intros [c [[] _]].
+  - destruct (parse_bgp nodes c) as [a|] eqn:P; [|discriminate].
+    destruct (attach_bgp a _ ps) as [ps1|] eqn:A; [|discriminate]. intros H.
+    apply attach_bgp_grows in A. apply IH in H.
+    pose proof (grows_names _ _ _ A) as Nm.
+    eapply grows_weaken; [|eapply grows_trans; [exact A|exact H]].
+    intros n b _. unfold bgp_wanted. split.
+    + intros [[-> Ht]|[c' [Hc [Hp Ht]]]].
+      * exists c. split; [left; reflexivity|]. split; assumption.
+      * exists c'. split; [right; assumption|]. split; [assumption|].
+        rewrite (targets_names crs _ _ ps ps1 Nm). assumption.
+    + intros [c' [[<-|Hc] [Hp Ht]]].
+      * left. split; [congruence|assumption].
+      * right. exists c'. split; [assumption|]. split; [assumption|].
+        rewrite <- (targets_names crs _ _ ps ps1 Nm). assumption.
+Qed.
+
+(* ------------------------------------------------------------------ validateBGPAdvPerPool *)
+Definition agg_ok (p : pool) (a : bgpadv) : Prop :=
+  ba_agg4 a <= 32 /\ ba_agg6 a <= 128 /\
+  forall c r, In (c :: r) (p_per_addr p) -> lowest (c :: r) <= agg_of a (pfam c).
+Definition lp_ok (p : pool) : Prop :=
+  ForallOrdPairs (fun b a => ba_lp a = ba_lp b \/ compatible a b p = true) (p_bgp p).
+Definition pool_ok (p : pool) : Prop := lp_ok p /\ Forall (agg_ok p) (p_bgp p).
+
+Lemma validate_adv_spec a p : ba_agg4 a <= 32 -> ba_agg6 a <= 128 -> validate_adv a p = true ->
+  agg_ok p a /\ Forall (fun b => ba_lp a = ba_lp b \/ compatible a b p = true) (p_bgp p).
+Proof.
+  intros H4 H6. unfold validate_adv. rewrite andb_true_iff, !forallb_forall. intros [H1 H2]. split.
+  - split; [assumption|split; [assumption|]]. intros c r Hin. specialize (H1 _ Hin). cbn in H1.
+    apply N.leb_le in H1. exact H1.
+  - apply Forall_forall. intros b Hb. specialize (H2 _ Hb). apply orb_true_iff in H2.
+    destruct H2 as [H2|H2]; [left; apply N.eqb_eq; assumption|right; assumption].
+Qed.
+
+Lemma find_pool_some n ps p0 : find_pool n ps = Some p0 -> In p0 ps /\ p_name p0 = n.
+Proof. unfold find_pool. intros H. apply find_some in H. destruct H as [H1 H2]. apply N.eqb_eq in H2. auto. Qed.
+
+Lemma nodup_name_unique ps p q : NoDup (map p_name ps) -> In p ps -> In q ps -> p_name p = p_name q -> p = q.
+Proof. apply nodup_key_inj. Qed.
+
+Lemma add_bgp_ok a p : pool_ok p -> agg_ok p a ->
+  Forall (fun b => ba_lp a = ba_lp b \/ compatible a b p = true) (p_bgp p) -> pool_ok (add_bgp a p).
+Proof.
+  intros [L G] Ha Hl. split.
+  - unfold lp_ok. cbn [add_bgp p_bgp]. apply FOP_snoc. split.
+    + eapply FOP_impl_in; [|exact L]. intros x y _ _ H. exact H.
+    + eapply Forall_impl; [|exact Hl]. intros b H. exact H.
+  - cbn [add_bgp p_bgp]. apply Forall_app. split; [|constructor; [exact Ha|constructor]].
+    eapply Forall_impl; [|exact G]. intros b H. exact H.
+Qed.
+
+Lemma upd_pool_names n f ps : (forall p, p_name (f p) = p_name p) -> map p_name (upd_pool n f ps) = map p_name ps.
+Proof.
+  intros H. unfold upd_pool. rewrite map_map. apply map_ext. intros p. destruct (p_name p =? n); [apply H|reflexivity].
+Qed.
+
+Lemma attach_bgp_ok a : ba_agg4 a <= 32 -> ba_agg6 a <= 128 ->
+  forall ts ps ps', attach_bgp a ts ps = Some ps' -> NoDup (map p_name ps) -> Forall pool_ok ps -> Forall pool_ok ps'.
+Proof.
+  intros H4 H6. induction ts as [|n r IH]; intros ps ps'; cbn [attach_bgp].
+  - intros [= <-]. auto.
+  - destruct (find_pool n ps) as [p0|] eqn:F; [|apply IH].
+    destruct (validate_adv a p0) eqn:V; [|discriminate]. intros H ND OK.
+    apply (IH _ _ H).
+    + rewrite upd_pool_names; [assumption|reflexivity].
+    + destruct (find_pool_some _ _ _ F) as [Hin Hn].
+      destruct (validate_adv_spec a p0 H4 H6 V) as [Ha Hl].
+      unfold upd_pool. apply Forall_forall. intros q Hq. apply in_map_iff in Hq.
+      destruct Hq as [p [<- Hp]]. rewrite Forall_forall in OK.
+      destruct (p_name p =? n) eqn:E; [|apply OK; assumption].
+      apply N.eqb_eq in E. assert (p = p0) by (apply (nodup_name_unique ps); auto; congruence). subst p.
+      apply add_bgp_ok; auto.
+Qed.
+
+Lemma parse_bgp_bounds nodes c a : parse_bgp nodes c = Some a -> ba_agg4 a <= 32 /\ ba_agg6 a <= 128.
+Proof.
+  unfold parse_bgp. destruct (_ && _) eqn:E; [|discriminate]. intros [= <-]. cbn.
+  rewrite !andb_true_iff in E. destruct E as [[_ E1] E2]. apply N.leb_le in E1, E2. auto.
+Qed.
+
+Lemma set_bgp_ok crs nodes advs : forall ps ps', set_bgp crs nodes advs ps = Some ps' ->
+  NoDup (map p_name ps) -> Forall pool_ok ps -> Forall pool_ok ps'.
+Proof.
+  induction advs as [|c r IH]; intros ps ps'; cbn [set_bgp].
+  - intros [= <-]. auto.
+  - destruct (parse_bgp nodes c) as [a|] eqn:P; [|discriminate].
+    destruct (attach_bgp a _ ps) as [ps1|] eqn:A; [|discriminate]. intros H ND OK.
+    destruct (parse_bgp_bounds _ _ _ P) as [H4 H6].
+    apply (IH _ _ H).
+    + rewrite <- (grows_names _ _ _ (attach_bgp_grows _ _ _ _ A)). assumption.
+    + eapply attach_bgp_ok; eassumption.
+Qed.
+
+(* ------------------------------------------------------------------ poolsFor's first loop *)
+Definition cidrs_inv (nodeips : list ip) (all : list prefix) : Prop :=
+  ForallOrdPairs (fun a b => overlap a b = false) all /\
+  Forall (fun c => forall x, In x nodeips -> contains c x = false) all /\ Forall good all.
+
+Lemma existsb_false {A} (f : A -> bool) l : existsb f l = false <-> forall x, In x l -> f x = false.
+Proof.
+  induction l as [|y r IH]; cbn; [split; [intros _ x []|reflexivity]|].
+  rewrite orb_false_iff, IH. split.
+  - intros [H1 H2] x [<-|H]; auto.
+  - intros H. split; [apply H; left; reflexivity|intros; apply H; right; assumption].
+Qed.
+
+Lemma check_cidrs_inv nodeips cs : forall all all', check_cidrs nodeips cs all = Some all' ->
+  Forall good cs -> cidrs_inv nodeips all -> all' = all ++ cs /\ cidrs_inv nodeips all'.
+Proof.
+  induction cs as [|c r IH]; intros all all'; cbn [check_cidrs].
+  - intros [= <-] _ I. rewrite app_nil_r. auto.
+  - destruct (existsb (overlap c) all || existsb (contains c) nodeips) eqn:E; [discriminate|].
+    apply orb_false_iff in E. destruct E as [E1 E2]. intros H G I.
+    inversion G as [|? ? Gc Gr]; subst. destruct I as (I1 & I2 & I3).
+    destruct (IH _ _ H Gr) as [-> I'].
+    + split; [|split].
+      * apply FOP_snoc. split; [assumption|]. apply Forall_forall. intros m Hm.
+        rewrite overlap_sym. apply (proj1 (existsb_false _ _) E1). assumption.
+      * apply Forall_app. split; [assumption|]. constructor; [|constructor].
+        apply (proj1 (existsb_false _ _) E2).
+      * apply Forall_app. split; [assumption|constructor; [assumption|constructor]].
+    + split; [|assumption]. rewrite <- app_assoc. reflexivity.
+Qed.
+
+Lemma parse_pool_spec nss c p : parse_pool nss c = Some p ->
+  p_name p = pl_name c /\ parse_addrs (pl_addrs c) = Some (p_per_addr p) /\ p_cidrs p = concat (p_per_addr p) /\
+  p_bgp p = [] /\ p_l2 p = [] /\ pl_addrs c <> [].
+Proof.
+  unfold parse_pool. destruct (pl_addrs c) as [|a0 ar] eqn:EA; [discriminate|].
+  destruct (parse_addrs (a0 :: ar)) as [per|] eqn:E; [|discriminate].
+  destruct (parse_alloc nss (pl_alloc c)); [|discriminate]. intros [= <-]. cbn. repeat split; discriminate.
+Qed.
+
+Lemma NoDup_app_snoc {A} (l : list A) x : NoDup l -> ~ In x l -> NoDup (l ++ [x]).
+Proof.
+  intros ND H. eapply Permutation_NoDup; [apply Permutation_cons_append|]. constructor; assumption.
+Qed.
+
+Lemma pools_loop_inv nodeips nss crs : forall all acc ps,
+  pools_loop nodeips nss crs all acc = Some ps ->
+  all = flat_map p_cidrs acc -> cidrs_inv nodeips all -> NoDup (map p_name acc) ->
+  exists news, ps = acc ++ news /\ Forall2 (fun c p => parse_pool nss c = Some p) crs news /\
+               cidrs_inv nodeips (flat_map p_cidrs ps) /\ NoDup (map p_name ps).
+Proof.
+  induction crs as [|c r IH]; intros all acc ps; cbn [pools_loop].
+  - intros [= <-] -> I ND. exists []. rewrite app_nil_r. split; [reflexivity|]. split; [constructor|]. split; assumption.
+  - destruct (parse_pool nss c) as [pl|] eqn:P; [|discriminate].
+    destruct (memN (p_name pl) (map p_name acc)) eqn:M; [discriminate|].
+    destruct (check_cidrs nodeips (p_cidrs pl) all) as [all'|] eqn:C; [|discriminate].
+    intros H -> I ND.
+    destruct (parse_pool_spec _ _ _ P) as (Hn & Hper & Hc & _).
+    assert (G : Forall good (p_cidrs pl)) by (rewrite Hc; apply (parse_addrs_exact _ _ Hper)).
+    destruct (check_cidrs_inv _ _ _ _ C G I) as [-> I'].
+    destruct (IH _ _ _ H) as (news & -> & F & I'' & ND'').
+    + rewrite flat_map_app. cbn. rewrite app_nil_r. reflexivity.
+    + assumption.
+    + rewrite map_app. cbn. apply NoDup_app_snoc; [assumption|].
+      intros Hin. apply memN_in in Hin. congruence.
+    + exists (pl :: news). rewrite <- app_assoc in *. cbn [app] in *. split; [reflexivity|]. split; [constructor; assumption|]. split; assumption.
+Qed.
+
+(* ------------------------------------------------------------------ accepted configurations *)
+Definition bgp_exact (Q : N -> bgpadv -> Prop) (p0 p : pool) : Prop :=
+  core p0 = core p /\ forall b, In b (p_bgp p) <-> Q (p_name p0) b.
+
+Record accepted_facts (r : resources) (out : pools_out) (ps0 ps2 : list pool) : Prop := {
+  af_perm : Permutation (po_pools out) ps2;
+  af_parsed : Forall2 (fun c p0 => parse_pool (r_nss r) c = Some p0) (r_pools r) ps0;
+  af_grown : Forall2 (bgp_exact (bgp_wanted (r_pools r) (r_nodes r) (r_bgp r) ps0)) ps0 ps2;
+  af_inv : cidrs_inv (node_ips (r_nodes r)) (flat_map p_cidrs ps0);
+  af_nodup : NoDup (map p_name ps0);
+  af_ok : Forall pool_ok ps2 }.
+
+Lemma keep_l2_names ps ps' : Forall2 keep_l2 ps ps' -> map p_name ps = map p_name ps'.
+Proof. induction 1 as [|p p' l l' [H _] F IH]; cbn; [reflexivity|]. rewrite IH, (core_name _ _ H). reflexivity. Qed.
+
+Lemma pools_for_accepted iter r out : pools_for iter r = Some out -> exists ps0 ps2, accepted_facts r out ps0 ps2.
+Proof.
+  unfold pools_for.
+  destruct (pools_loop _ _ _ _ _) as [ps0|] eqn:L; [|discriminate].
+  destruct (set_l2 _ _ _ _) as [ps1|] eqn:S1; [|discriminate].
+  destruct (set_bgp _ _ _ _) as [ps2|] eqn:S2; [|discriminate].
+  intros [= <-]. cbn [po_pools]. exists ps0, ps2.
+  destruct (pools_loop_inv _ _ _ _ _ _ L eq_refl) as (news & E & F & I & ND).
+  { split; [constructor|split; constructor]. }
+  { constructor. }
+  cbn [app] in E. subst news.
+  pose proof (set_l2_keeps _ _ _ _ _ S1) as K.
+  pose proof (set_bgp_grows _ _ _ _ _ S2) as G.
+  pose proof (keep_l2_names _ _ K) as Nm.
+  assert (B0 : Forall (fun p => p_bgp p = []) ps0).
+  { clear - F. induction F as [|c p l l' H F IH]; constructor; [|assumption].
+    apply parse_pool_spec in H. tauto. }
+  constructor.
+  - apply ksort_perm.
+  - assumption.
+  - eapply (Forall2_trans' keep_l2 (grows (bgp_wanted (r_pools r) (r_nodes r) (r_bgp r) ps1))); [|exact K|exact G].
+    intros p0 p1 p Hp0 [C1 B1] (C2 & _ & M2). rewrite Forall_forall in B0. specialize (B0 _ Hp0).
+    split; [congruence|]. intros b. rewrite M2, <- B1, B0, <- (core_name _ _ C1). cbn [In]. unfold bgp_wanted.
+    split.
+    + intros [[]|[c [Hc [Hp Ht]]]]. exists c. repeat split; auto.
+      rewrite (targets_names _ _ _ ps0 ps1 Nm). assumption.
+    + intros [c [Hc [Hp Ht]]]. right. exists c. repeat split; auto.
+      rewrite <- (targets_names _ _ _ ps0 ps1 Nm). assumption.
+  - assumption.
+  - assumption.
+  - eapply set_bgp_ok; [exact S2| |].
+    + rewrite <- Nm. assumption.
+    + apply Forall_forall. intros p Hp. destruct (Forall2_in_r _ _ _ _ K Hp) as [p0 [Hp0 [_ Hb]]].
+      rewrite Forall_forall in B0. specialize (B0 _ Hp0). split.
+      * unfold lp_ok. rewrite <- Hb, B0. constructor.
+      * rewrite <- Hb, B0. constructor.
+Qed.
+
+Lemma flat_map_core ps ps' (R : pool -> pool -> Prop) : (forall a b, R a b -> core a = core b) ->
+  Forall2 R ps ps' -> flat_map p_cidrs ps = flat_map p_cidrs ps'.
+Proof. intros H. induction 1; cbn; [reflexivity|]. rewrite IHForall2, (core_cidrs _ _ (H _ _ H0)). reflexivity. Qed.
+
+Lemma disjoint_sym a b : disjoint a b -> disjoint b a.
+Proof. intros H x C1 C2. exact (H x C2 C1). Qed.
+
+(* all accepted CIDRs, within and between pools, are pairwise disjoint *)
+Theorem accepted_disjoint iter r out : pools_for iter r = Some out ->
+  ForallOrdPairs disjoint (flat_map p_cidrs (po_pools out)).
+Proof.
+  intros H. destruct (pools_for_accepted _ _ _ H) as (ps0 & ps2 & A).
+  destruct (af_inv _ _ _ _ A) as (I1 & _ & I3).
+  apply (FOP_perm disjoint (flat_map p_cidrs ps2)); [apply disjoint_sym| |].
+  - symmetry. apply flat_map_perm. apply (af_perm _ _ _ _ A).
+  - rewrite <- (flat_map_core ps0 ps2 _ (fun a b (H : bgp_exact _ a b) => proj1 H) (af_grown _ _ _ _ A)).
+    eapply FOP_impl_in; [|exact I1]. rewrite Forall_forall in I3.
+    intros a b Ha Hb. apply overlap_false_disjoint; auto.
+Qed.
+
+Lemma accepted_pool_origin iter r out p : pools_for iter r = Some out -> In p (po_pools out) ->
+  exists c p0, In c (r_pools r) /\ parse_pool (r_nss r) c = Some p0 /\ core p0 = core p.
+Proof.
+  intros H Hp. destruct (pools_for_accepted _ _ _ H) as (ps0 & ps2 & A).
+  apply (Permutation_in _ (af_perm _ _ _ _ A)) in Hp.
+  destruct (Forall2_in_r _ _ _ _ (af_grown _ _ _ _ A) Hp) as [p0 [Hp0 [C _]]].
+  destruct (Forall2_in_r _ _ _ _ (af_parsed _ _ _ _ A) Hp0) as [c [Hc P]].
+  exists c, p0. auto.
+Qed.
+
+Lemma accepted_cr_pool iter r out c : pools_for iter r = Some out -> In c (r_pools r) ->
+  exists p p0, In p (po_pools out) /\ parse_pool (r_nss r) c = Some p0 /\ core p0 = core p.
+Proof.
+  intros H Hc. destruct (pools_for_accepted _ _ _ H) as (ps0 & ps2 & A).
+  destruct (Forall2_in_l _ _ _ _ (af_parsed _ _ _ _ A) Hc) as [p0 [Hp0 P]].
+  destruct (Forall2_in_l _ _ _ _ (af_grown _ _ _ _ A) Hp0) as [p [Hp [C _]]].
+  exists p, p0. split; [|auto]. apply (Permutation_in _ (Permutation_sym (af_perm _ _ _ _ A))). assumption.
+Qed.
+
+(* no node's internal IP lies in an accepted pool *)
+Theorem no_node_ip iter r out p c x : pools_for iter r = Some out ->
+  In p (po_pools out) -> In c (p_cidrs p) -> In x (node_ips (r_nodes r)) -> contains c x = false.
+Proof.
+  intros H Hp Hc Hx. destruct (pools_for_accepted _ _ _ H) as (ps0 & ps2 & A).
+  apply (Permutation_in _ (af_perm _ _ _ _ A)) in Hp.
+  destruct (Forall2_in_r _ _ _ _ (af_grown _ _ _ _ A) Hp) as [p0 [Hp0 [C _]]].
+  destruct (af_inv _ _ _ _ A) as (_ & I2 & _). rewrite Forall_forall in I2.
+  apply (I2 c); [|assumption]. apply in_flat_map. exists p0. split; [assumption|].
+  rewrite (core_cidrs _ _ C). assumption.
+Qed.
+
+(* the address set of a pool is exactly what was written *)
+Lemma parse_pool_exact nss c p0 : parse_pool nss c = Some p0 ->
+  forall x, in_prefixes (p_cidrs p0) x <-> exists a, In a (pl_addrs c) /\ addr_denotes a x.
+Proof.
+  intros P. destruct (parse_pool_spec _ _ _ P) as (_ & Hper & Hc & _). rewrite Hc.
+  apply (parse_addrs_exact _ _ Hper).
+Qed.
+
+Theorem parse_exact iter r out : pools_for iter r = Some out ->
+  (forall p, In p (po_pools out) -> exists c, In c (r_pools r) /\ pl_name c = p_name p /\
+     forall x, in_prefixes (p_cidrs p) x <-> exists a, In a (pl_addrs c) /\ addr_denotes a x) /\
+  (forall c, In c (r_pools r) -> exists p, In p (po_pools out) /\ pl_name c = p_name p /\
+     forall x, in_prefixes (p_cidrs p) x <-> exists a, In a (pl_addrs c) /\ addr_denotes a x).
+Proof.
+  intros H. split.
+  - intros p Hp. destruct (accepted_pool_origin _ _ _ _ H Hp) as (c & p0 & Hc & P & C).
+    exists c. split; [assumption|]. destruct (parse_pool_spec _ _ _ P) as (Hn & _).
+    split; [rewrite <- (core_name _ _ C); auto|]. rewrite <- (core_cidrs _ _ C). apply (parse_pool_exact _ _ _ P).
+  - intros c Hc. destruct (accepted_cr_pool _ _ _ _ H Hc) as (p & p0 & Hp & P & C).
+    exists p. split; [assumption|]. destruct (parse_pool_spec _ _ _ P) as (Hn & _).
+    split; [rewrite <- (core_name _ _ C); auto|]. rewrite <- (core_cidrs _ _ C). apply (parse_pool_exact _ _ _ P).
+Qed.
+
+(* ------------------------------------------------------------------ attachment *)
+Definition wants (crs : list pool_cr) (names : list N) (ss : list sel) (n : N) : Prop :=
+  (names = [] /\ ss = []) \/ In n names \/
+  exists c, In c crs /\ pl_name c = n /\ matches_any ss (pl_labels c) = true.
+
+Lemma selected_pools_in crs ss n :
+  In n (selected_pools crs ss) <-> exists c, In c crs /\ pl_name c = n /\ matches_any ss (pl_labels c) = true.
+Proof.
+  unfold selected_pools. rewrite in_map_iff. split.
+  - intros [c [E Hc]]. apply filter_In in Hc. exists c. tauto.
+  - intros [c [Hc [E M]]]. exists c. split; [assumption|]. apply filter_In. auto.
+Qed.
+
+Lemma targets_spec crs names ss ps n : In n (map p_name ps) ->
+  (In n (targets crs names ss ps) <-> wants crs names ss n).
+Proof.
+  intros Hn. unfold targets, wants.
+  assert (G : In n (filter (fun n0 => memN n0 (map p_name ps)) (names ++ selected_pools crs ss)) <->
+              In n names \/ exists c, In c crs /\ pl_name c = n /\ matches_any ss (pl_labels c) = true).
+  { rewrite filter_In, in_app_iff, selected_pools_in, memN_in. tauto. }
+  destruct names as [|n0 nr], ss as [|s0 sr]; try (rewrite G; split; [tauto|intros [[? ?]|?]; [discriminate|assumption]]).
+  split; [auto|]. intros _. assumption.
+Qed.
+
+(* a BGP advertisement is attached to exactly the pools it names or selects (all pools when
+   it names none) *)
+Theorem adv_attach_exact iter r out p b : pools_for iter r = Some out -> In p (po_pools out) ->
+  (In b (p_bgp p) <-> exists c, In c (r_bgp r) /\ parse_bgp (r_nodes r) c = Some b /\
+                                 wants (r_pools r) (bg_pools c) (bg_psels c) (p_name p)).
+Proof.
+  intros H Hp. destruct (pools_for_accepted _ _ _ H) as (ps0 & ps2 & A).
+  apply (Permutation_in _ (af_perm _ _ _ _ A)) in Hp.
+  destruct (Forall2_in_r _ _ _ _ (af_grown _ _ _ _ A) Hp) as [p0 [Hp0 [C M]]].
+  rewrite M. unfold bgp_wanted. rewrite <- (core_name _ _ C).
+  assert (Hn : In (p_name p0) (map p_name ps0)) by (apply in_map; assumption).
+  split; intros [c [Hc [P T]]]; exists c; repeat split; auto; [apply (targets_spec _ _ _ ps0)|apply (targets_spec _ _ _ ps0) in T]; auto.
+Qed.
+
+(* with exactly the nodes its node selectors match (all nodes when it has none) *)
+Theorem nodes_exact nodes c b : parse_bgp nodes c = Some b ->
+  forall n, In n (ba_nodes b) <-> exists nd, In nd nodes /\ nd_name nd = n /\
+                                   (bg_nsels c = [] \/ matches_any (bg_nsels c) (nd_labels nd) = true).
+Proof.
+  unfold parse_bgp. destruct (_ && _); [|discriminate]. intros [= <-] n. cbn [ba_nodes].
+  unfold selected_nodes. rewrite setN_in, in_map_iff. split.
+  - intros [nd [E Hnd]]. apply filter_In in Hnd. destruct Hnd as [Hnd M]. exists nd. repeat split; auto.
+    destruct (bg_nsels c); [left; reflexivity|right; assumption].
+  - intros [nd [Hnd [E M]]]. exists nd. split; [assumption|]. apply filter_In. split; [assumption|].
+    destruct (bg_nsels c) eqn:Es; [reflexivity|]. destruct M as [M|M]; [discriminate|assumption].
+Qed.
+
+Theorem l2_nodes_exact nodes c a : parse_l2 nodes c = Some a ->
+  forall n, In n (la_nodes a) <-> exists nd, In nd nodes /\ nd_name nd = n /\
+                                   (l2_nsels c = [] \/ matches_any (l2_nsels c) (nd_labels nd) = true).
+Proof.
+  unfold parse_l2. destruct (_ && _); [|discriminate]. intros [= <-] n. cbn [la_nodes].
+  unfold selected_nodes. rewrite setN_in, in_map_iff. split.
+  - intros [nd [E Hnd]]. apply filter_In in Hnd. destruct Hnd as [Hnd M]. exists nd. repeat split; auto.
+    destruct (l2_nsels c); [left; reflexivity|right; assumption].
+  - intros [nd [Hnd [E M]]]. exists nd. split; [assumption|]. apply filter_In. split; [assumption|].
+    destruct (l2_nsels c) eqn:Es; [reflexivity|]. destruct M as [M|M]; [discriminate|assumption].
+Qed.
+
+(* ------------------------------------------------------------------ aggregation *)
+Lemma lowest_single q : lowest [q] = plen q.
+Proof. reflexivity. Qed.
+
+Lemma agg_of_le_width a f : ba_agg4 a <= 32 -> ba_agg6 a <= 128 -> agg_of a f <= width f.
+Proof. destruct f; cbn; auto. Qed.
+
+(* an address entry that is one CIDR q (written as a CIDR, or a range that is one block):
+   the aggregate of any address of q, for any attached advertisement, stays inside q *)
+Theorem aggregate_in_cidr iter r out c : pools_for iter r = Some out -> In c (r_pools r) ->
+  exists p, In p (po_pools out) /\ p_name p = pl_name c /\
+    forall a q b x y, In a (pl_addrs c) -> parse_addr a = Some [q] -> In b (p_bgp p) ->
+      contains q x = true -> contains (mask_to (agg_of b (pfam q)) x) y = true -> contains q y = true.
+Proof.
+  intros H Hc. destruct (pools_for_accepted _ _ _ H) as (ps0 & ps2 & A).
+  destruct (Forall2_in_l _ _ _ _ (af_parsed _ _ _ _ A) Hc) as [p0 [Hp0 P]].
+  destruct (Forall2_in_l _ _ _ _ (af_grown _ _ _ _ A) Hp0) as [p [Hp [C _]]].
+  exists p. split; [apply (Permutation_in _ (Permutation_sym (af_perm _ _ _ _ A))); assumption|].
+  destruct (parse_pool_spec _ _ _ P) as (Hn & Hper & _).
+  split; [rewrite <- (core_name _ _ C); assumption|].
+  intros a q b x y Ha Pa Hb Cx Cy.
+  pose proof (af_ok _ _ _ _ A) as OK. rewrite Forall_forall in OK. destruct (OK _ Hp) as [_ G].
+  rewrite Forall_forall in G. destruct (G _ Hb) as (H4 & H6 & Hl).
+  apply parse_addrs_spec in Hper. destruct (Forall2_in_l _ _ _ _ Hper Ha) as [cs [Hcs Pcs]].
+  rewrite Pa in Pcs. injection Pcs as <-. rewrite <- (core_per _ _ C) in Hl.
+  specialize (Hl q [] Hcs). rewrite lowest_single in Hl.
+  eapply aggregate_contained; [exact Hl| |exact Cx|exact Cy].
+  apply agg_of_le_width; assumption.
+Qed.
+
+(* ------------------------------------------------------------------ local preference *)
+Definition peers_overlap (a b : bgpadv) : Prop :=
+  ba_peers a = [] \/ ba_peers b = [] \/ exists x, In x (ba_peers a) /\ In x (ba_peers b).
+Definition collide (a b : bgpadv) (p : pool) : Prop :=
+  (exists n, In n (ba_nodes a) /\ In n (ba_nodes b)) /\ peers_overlap a b /\
+  exists f, pool_has f p = true /\ agg_of a f = agg_of b f.
+
+Lemma existsb_mem l l' : existsb (fun x => memN x l') l = true <-> exists x, In x l /\ In x l'.
+Proof.
+  rewrite existsb_exists. split; intros [x [H1 H2]]; exists x; split; auto; apply memN_in; assumption.
+Qed.
+
+Lemma aggr_different_spec a b p :
+  aggr_different a b p = false <-> exists f, pool_has f p = true /\ agg_of a f = agg_of b f.
+Proof.
+  unfold aggr_different.
+  destruct (N.eqb_spec (ba_agg4 a) (ba_agg4 b)) as [E4|E4], (N.eqb_spec (ba_agg6 a) (ba_agg6 b)) as [E6|E6],
+    (pool_has F4 p) eqn:H4, (pool_has F6 p) eqn:H6; cbn [negb andb]; split; intros H;
+    try discriminate; try reflexivity;
+    try (destruct H as [[|] [Hf Ef]]; cbn [agg_of] in Ef; congruence);
+    try (exists F4; split; [assumption|exact E4]); try (exists F6; split; [assumption|exact E6]).
+Qed.
+
+Lemma compatible_spec a b p : compatible a b p = true <-> ~ collide a b p.
+Proof.
+  unfold compatible, collide.
+  destruct (aggr_different a b p) eqn:D.
+  - split; [|reflexivity]. intros _ (_ & _ & Hf). apply aggr_different_spec in Hf. congruence.
+  - apply aggr_different_spec in D.
+    assert (PO : (match ba_peers a, ba_peers b with
+                  | _ :: _, _ :: _ => negb (existsb (fun x => memN x (ba_peers b)) (ba_peers a))
+                  | _, _ => false end) = false <-> peers_overlap a b).
+    { unfold peers_overlap. destruct (ba_peers a) as [|x xs] eqn:Ea, (ba_peers b) as [|y ys] eqn:Eb;
+        try (split; [auto|reflexivity]).
+      rewrite negb_false_iff, existsb_mem. split; [auto|]. intros [?|[?|?]]; [discriminate|discriminate|assumption]. }
+    destruct (match ba_peers a, ba_peers b with _ :: _, _ :: _ => _ | _, _ => false end) eqn:PE.
+    + split; [|reflexivity]. intros _ (_ & Hp & _). apply PO in Hp. discriminate.
+    + rewrite negb_true_iff. split.
+      * intros E (Hn & _ & _). apply existsb_mem in Hn. congruence.
+      * intros Hc. destruct (existsb (fun n => memN n (ba_nodes b)) (ba_nodes a)) eqn:E; [|reflexivity]. exfalso. apply Hc.
+        split; [apply existsb_mem; assumption|]. split; [apply PO; reflexivity|assumption].
+Qed.
+
+Lemma collide_sym a b p : collide a b p -> collide b a p.
+Proof.
+  intros ([n [H1 H2]] & Hp & [f [Hf E]]). split; [exists n; auto|]. split.
+  - destruct Hp as [?|[?|[x [? ?]]]]; unfold peers_overlap; eauto.
+  - exists f. auto.
+Qed.
+
+(* two advertisements attached to one accepted pool with different local preferences never
+   collide (i.e. a colliding pair is rejected) *)
+Theorem localpref_no_collision iter r out p : pools_for iter r = Some out -> In p (po_pools out) ->
+  ForallOrdPairs (fun a b => ba_lp a <> ba_lp b -> ~ collide a b p) (p_bgp p).
+Proof.
+  intros H Hp. destruct (pools_for_accepted _ _ _ H) as (ps0 & ps2 & A).
+  apply (Permutation_in _ (af_perm _ _ _ _ A)) in Hp.
+  pose proof (af_ok _ _ _ _ A) as OK. rewrite Forall_forall in OK. destruct (OK _ Hp) as [L _].
+  eapply FOP_impl_in; [|exact L]. cbn. intros a b _ _ [E|Cm] Hne Hc; [congruence|].
+  apply compatible_spec in Cm. apply Cm. apply collide_sym. assumption.
 Qed.
